@@ -17,7 +17,7 @@
 EXTENDS Naturals, Sequences, FiniteSets
 
 None == "None"
-Vals == {"str", "num", "zero", "empty", "none", "dots", "repr", "tag", "tfy", "list", "bad"}
+Vals == {"str", "num", "zero", "empty", "none", "dots", "repr", "tag", "tfy", "list", "bad", "badlist"}
 
 \* what append(value) stores, after the wrapper's case analysis (wrap_displayhook_handler)
 Stored(v) ==
@@ -49,7 +49,8 @@ EnterF(s, t, g) ==
 
 \* an expression statement's value reaches sys.displayhook
 DisplayF(s, v) ==
-  IF v = "bad" THEN [s EXCEPT !.exc = "TypeError"]
+  \* an unsupported value - alone, or after valid items inside a displayed list - is rejected as a whole
+  IF v \in {"bad", "badlist"} THEN [s EXCEPT !.exc = "TypeError"]
   ELSE IF s.hook = "base" THEN (IF v \in {"none"} THEN s ELSE [s EXCEPT !.base = @ \o <<v>>])
   ELSE [s EXCEPT !.kids[s.hook] = @ \o Stored(v)]
 
